@@ -256,6 +256,10 @@ def build_query(identifier, session, query=None):
     for elem in [e for e in identifier if e.keyword in _ATTRIBUTES]:
         vr = elem.VR
         val = elem.value
+        # A zero-length value may be decoded as None, '' or an empty list
+        if elem.VM == 0:
+            val = None
+
         # Convert PersonName3 to str
         if vr == "PN" and val:
             val = str(val)
